@@ -803,6 +803,7 @@ func (m *Master) reconcile(explicit []scheduler.Call_Reconcile_Task) {
 		var s mesos.TaskStatus
 		if t != nil {
 			s = m.statusLocked(t, st, mesos.SOURCE_MASTER, &r, "Reconciliation: Latest task state", false)
+			m.sparsifyReconcile(&s) // sparse_status.go: nothing is omitted unless SetReconcileOmit was used
 		} else {
 			src := mesos.SOURCE_MASTER
 			msg := "Reconciliation: Task is unknown"
